@@ -355,6 +355,42 @@ func c20R2(c *Ctx) {
 	}
 	sort.Strings(missing)
 	c.Check(len(missing) == 0 && hasDefaultErr, "C20.R2", "datapath switch is exhaustive and rejects anything else", p.Pos(sw), fn.Key(), "cases veth, ipvlan, datapathv2 + default: return error", fmt.Sprintf("missing=%v defaultError=%v", missing, hasDefaultErr))
+	// … and it is always written once a datapath was selected: otherwise the value of the input
+	// (any spelling the user chose) would survive into the generated configuration
+	{
+		var vsets []*ast.CallExpr
+		for _, s := range sets {
+			if s.key == "eniip_virtual_type" {
+				vsets = append(vsets, s.call)
+			}
+		}
+		var encl ast.Stmt
+		for _, nd := range pathTo(fn.Decl.Body, sw) {
+			switch t := nd.(type) {
+			case *ast.RangeStmt:
+				encl = t
+			case *ast.ForStmt:
+				encl = t
+			}
+		}
+		q := NewPathQuery(p, fn, nil)
+		if encl != nil {
+			q.ToBlock = loopHead(encl)
+		}
+		sig := fn.Obj.Type().(*types.Signature)
+		w := q.Escapes(isExactly(sw.Tag), nil, func(n ast.Node) bool {
+			for _, vs := range vsets {
+				if n.Pos() <= vs.Pos() && vs.End() <= n.End() {
+					return true
+				}
+			}
+			return false
+		}, func(ret *ast.ReturnStmt) bool {
+			ok, known := isSuccessReturn(info, sig, ret)
+			return known && !ok // error returns abandon the generation
+		})
+		c.Check(len(vsets) > 0 && w == nil, "C20.R2", "the virtual type is written whenever a datapath was selected", p.Pos(sw), fn.Key(), "must-pass: switch datapath → plugin.Set(…, \"eniip_virtual_type\") → next plugin / success return", "path: "+p.describePath(w))
+	}
 	// the virtual type written is the selected datapath
 	for _, s := range sets {
 		if s.key != "eniip_virtual_type" {
